@@ -177,6 +177,17 @@ def x_cell(b, rec):
         j = match_close(b, i, '(', ')')
         b = b[:m.start()] + '%s.%s = %s' % (m.group(1), m.group(2), b[i + 1:j]) + b[j + 1:]
         n += 1
+    # Cell::replace(E) / Cell::take() used as an expression: `{ let old = F; F = E; old }`
+    while True:
+        m = re.search(r'\b(self|cx)\.(%s)\.(replace|take)\(' % '|'.join(CELL_FIELDS), b)
+        if not m:
+            break
+        i = m.end() - 1
+        j = match_close(b, i, '(', ')')
+        new = b[i + 1:j].strip() if m.group(3) == 'replace' else 'None'
+        f = '%s.%s' % (m.group(1), m.group(2))
+        b = b[:m.start()] + '({ let cell_old = %s; %s = %s; cell_old })' % (f, f, new) + b[j + 1:]
+        n += 1
     if n:
         rec.rule('X-cell')
     return b
@@ -208,6 +219,17 @@ def x_opt(b, rec):
             body = b[m.end():j].strip()
             b = b[:m.start()] + '(match %s { Some(%s) => %s, None => %s })' % (m.group(1), m.group(2), body, dflt) + b[j + 1:]
             rec.rule('X-opt')
+    # RECV.or_else(|| E)  (RECV a path possibly ending in a nullary call such as `self.gray.pop()`)
+    pat4 = re.compile(r'((?:\w+\.)*\w+(?:\(\))?)\s*\.or_else\(\|\|\s*')
+    while True:
+        m = pat4.search(b)
+        if not m:
+            break
+        i = b.index('(', m.start() + len(m.group(1)))
+        j = match_close(b, i, '(', ')')
+        body = b[m.end():j].strip()
+        b = b[:m.start()] + '(match %s { Some(oe_x) => Some(oe_x), None => %s })' % (m.group(1), body) + b[j + 1:]
+        rec.rule('X-opt')
     pat3 = re.compile(r'((?:\w+\.)*\w+)\s*\.map_or\(\s*(true|false)\s*,\s*\|(\w+)\|\s*')
     while True:
         m = pat3.search(b)
@@ -480,6 +502,24 @@ def context_impl(src):
 
 
 KNOWN_ACCESSORS = {'new', 'mutation_context', 'finalization_context', 'metrics', 'phase'}
+GUARD_FNS = {'enter', 'switch', 'log_progress', 'span_for'}
+
+
+def guard_helpers(src):
+    """X-inline for `impl PhaseGuard`: a private method of the guard other than enter / switch / log_progress / span_for (e.g. an extracted
+    'begin_sweep') is moved into `impl Context` with `self.cx.` -> `self.`, where inline_helpers then inlines it at its `cx.h(..)` call sites."""
+    m = re.search(r"\nimpl<'a> PhaseGuard<'a>\s*\{", src)
+    if not m:
+        return ''
+    i = src.index('{', m.end() - 1); j = match_close(src, i)
+    blk = src[i + 1:j]
+    out = ''
+    for n in re.findall(r'\n    (?:#\[[^\]]*\]\s*)*(?:pub(?:\([a-z]+\))? )?fn (\w+)', blk):
+        if n in GUARD_FNS:
+            continue
+        sig, body, st, en = find_fn(blk, n)
+        out += '\n    ' + ' '.join(sig.split()) + ' {' + body.replace('self.cx.', 'self.') + '}\n'
+    return out
 
 
 def inline_helpers(impl, rec_notes):
@@ -511,7 +551,7 @@ def inline_helpers(impl, rec_notes):
         impl = impl[:a0] + impl[en:]
         # a helper passed by name to Option::map: `.map(Self::h)` -> `.map(|x| Self::h(x))`
         impl = re.sub(r'\.map\(Self::%s\)' % h, '.map(|hx| Self::%s(hx))' % h, impl)
-        callre = re.compile(r'\b(?:self\.|Self::)%s\(' % h)
+        callre = re.compile(r'\b(?:self\.|Self::|cx\.)%s\(' % h)
         while True:
             cm = callre.search(impl)
             if not cm:
@@ -539,7 +579,7 @@ def extract_context(path, rec):
     raw = open(path).read()
     src = strip_comments(raw)
     out = {}
-    impl = context_impl(src)
+    impl = context_impl(src) + guard_helpers(src)
     impl, inlined = inline_helpers(impl, rec)
     for fn in CONTEXT_FNS:
         key = 'context.' + fn
